@@ -1,8 +1,10 @@
 (* C14 - cancel is final: after the submission was marked canceled nothing is handed to the HPC, in
    any continuation (cancel-jobs' own completion round, later try-submit-jobs, node rounds), for every
-   accepted trace.  (A resubmission clears the flag; resubmission is outside this model.) *)
+   accepted trace; when the flag is set no batch listed in the status is still active (the acceptor
+   demands the scancel calls before the flag).  (A resubmission clears the flag; resubmission is
+   outside this model.) *)
 From Coq Require Import List ZArith NArith Bool.
-From Jade Require Import Base System SystemMonitors SystemProofs SystemTheorems.
+From Jade Require Import Base System SystemMonitors SystemProofs SystemTheorems SystemStatus.
 From Jade.Props Require Import SysExamples.
 Import ListNotations.
 Open Scope N_scope.
@@ -15,6 +17,12 @@ Print Assumptions c14_no_sbatch_after_cancel.
 Theorem c14_monitor : forall sc tr s, run sc tr = Some s -> c14_ok sc tr = true.
 Proof. exact c14_accepted. Qed.
 Print Assumptions c14_monitor.
+
+(* every batch that the status lists was asked to be canceled (or had ended) before the flag is set *)
+Theorem c14_listed_batches_canceled : forall sc tr1 p tr2 s, run sc (tr1 ++ EMarkCanceled p :: tr2) = Some s ->
+  exists s1, run sc tr1 = Some s1 /\ forall i, In i (ids s1) -> ~ In i (active_ids s1).
+Proof. exact canceled_means_no_listed_batch_active. Qed.
+Print Assumptions c14_listed_batches_canceled.
 
 (* results recorded before the cancel are kept: rows are never removed, only moved *)
 Theorem c14_results_kept : forall sc tr s, run sc tr = Some s ->
